@@ -78,6 +78,44 @@ def stream(family, tier):
             yield {"clauses": cl, "queries": [G.A(heads[0])] + ([G.A("a")] if k % 2 else []),
                    "evidence": [[G.A(heads[-1]), True, "plain"], [G.A("b"), False, "pair"]]}
             k += 1
+    elif family == "FDUP":
+        # probabilistic rules / ADs that share their body AND their parameters: every one of them is an
+        # independent choice of its own (textually equal clauses are not one clause)
+        A, rule, ad, fact = G.A, G.rule, G.ad, G.fact
+        bodies = [[[True, A("a")]], [[True, A("b")]], [[True, A("a")], [True, A("b")]], [[False, A("a")]]]
+        base = [fact("0.3", A("a")), fact("0.6", A("b"))]
+        for b in bodies:
+            forms = [
+                ([rule(A("p"), b, p="0.5"), rule(A("p"), b, p="0.5")], ["p"]),
+                ([rule(A("p"), b, p="0.5"), rule(A("q"), b, p="0.5"), rule(A("r"), [[True, A("p")], [True, A("q")]])], ["p", "q", "r"]),
+                ([rule(A("p"), b, p="0.5"), rule(A("q"), b, p="0.5"), rule(A("r"), [[True, A("p")], [False, A("q")]])], ["r"]),
+                ([ad([("0.5", A("p")), ("0.25", A("q"))], b), ad([("0.5", A("p")), ("0.25", A("q"))], b)], ["p", "q"]),
+                ([ad([("0.5", A("p")), ("0.25", A("q"))], b), ad([("0.5", A("r")), ("0.25", A("s"))], b),
+                  rule(A("t"), [[True, A("p")], [True, A("r")]])], ["t", "q", "s"]),
+                ([rule(A("p"), b, p="0.5"), rule(A("q"), b, p="0.4"), rule(A("r"), [[True, A("p")], [True, A("q")]])], ["r"]),
+            ]
+            for cl, heads in forms:
+                yield {"clauses": base + cl, "queries": [A(h) for h in heads], "evidence": []}
+                yield {"clauses": base + cl, "queries": [A(heads[0])], "evidence": [[A("a"), k % 2 == 0, "pair"]]}
+                k += 1
+    elif family == "FSQ":
+        # one non-ground goal whose answers are bare (possibly negated) choice literals, several of them heads
+        # of the same annotated disjunction
+        A, rule, ad, fact = G.A, G.rule, G.ad, G.fact
+        x, y, z = A("x"), A("y"), A("z")
+        progs = [
+            [ad([("0.3", x), ("0.4", y)]), rule(A("e", "a"), [[False, x]]), rule(A("e", "b"), [[True, y]])],
+            [ad([("0.3", x), ("0.4", y)]), rule(A("e", "a"), [[True, x]]), rule(A("e", "b"), [[False, y]])],
+            [fact("0.3", x), fact("0.4", y), rule(A("e", "a"), [[False, x]]), rule(A("e", "b"), [[True, y]])],
+            [ad([("0.3", x), ("0.4", y), ("0.2", z)]), rule(A("e", "a"), [[False, x]]), rule(A("e", "b"), [[False, y]]),
+             rule(A("e", "c"), [[True, z]])],
+            [ad([("0.3", A("c", "a")), ("0.4", A("c", "b"))]), fact(None, A("d", "a")), fact(None, A("d", "b")),
+             rule(A("e", "X"), [[True, A("d", "X")], [False, A("c", "X")]])],
+            [ad([("0.5", x), ("0.5", y)]), rule(A("e", "a"), [[False, x]]), rule(A("e", "b"), [[False, y]])],
+        ]
+        for cl in progs:
+            yield {"clauses": cl, "queries": [A("e", "X")], "evidence": []}
+            yield {"clauses": cl, "queries": [A("e", "X"), A("e", "a")], "evidence": []}
     elif family == "FT":
         for cl in G.ft_programs():
             qs = [G.A("s"), G.A("t")]
